@@ -70,7 +70,7 @@ def _on_alarm(signum, frame):
     raise RunTimeout()
 
 
-RUN_WALL_CAP = float(os.environ.get('VERIF_RUN_WALL_CAP', '60'))
+RUN_WALL_CAP = float(os.environ.get('VERIF_RUN_WALL_CAP', '30'))
 
 
 def run_seed(spec, seed, stratum, *, mutant=None, record=False):
@@ -84,11 +84,18 @@ def guarded(spec, tape, stratum, mutant, record):
     a harness error carrying the place where it was spinning, never a pass."""
     import signal
     old = signal.signal(signal.SIGALRM, _on_alarm)
-    signal.setitimer(signal.ITIMER_REAL, RUN_WALL_CAP)
+    # (repeating: the teardown of a run whose callback never returns must not hang either)
+    signal.setitimer(signal.ITIMER_REAL, RUN_WALL_CAP, 10.0)
     try:
         return spec.run_world(tape, stratum, mutant=mutant, record=record)
     except RunTimeout as e:
-        tb = ''.join(traceback.format_tb(e.__traceback__)[-6:])
+        frames = traceback.format_tb(e.__traceback__)
+        tb = ''.join(frames[-6:])
+        hook = getattr(spec, 'on_wall_timeout', None)
+        if hook is not None:
+            res = hook(frames)
+            if res is not None:
+                return res
         raise HarnessError(f'run exceeded {RUN_WALL_CAP}s of wall time; spinning at:\n{tb}') from None
     finally:
         signal.setitimer(signal.ITIMER_REAL, 0)
@@ -330,6 +337,8 @@ def minimise(spec, values, stratum, violation, *, mutant=None, max_attempts=400)
                 return (vkey(v) == key), used
         return False, None
 
+    if max_attempts <= 0:
+        return list(values), 0
     best, n1 = shrink(values, still_fails, max_attempts=max_attempts)
     # structure-aware pass: drop whole generated elements (a client, a message,
     # a request) together with the count that announces them
@@ -524,7 +533,7 @@ def run_check(spec, tier, base_seed, *, out=print):
             kf = match_known(known, v, stratum)
             jobs.append((key, items[0], kf))
         attempts = 250 if tier == 'quick' else 600
-        futs = {ex.submit(_minimise_job, (it[3], it[2], it[4], attempts)): (key, it, kf)
+        futs = {ex.submit(_minimise_job, (it[3], it[2], it[4], 0 if it[4].get('no_shrink') else attempts)): (key, it, kf)
                 for key, it, kf in jobs}
         new_violation_keys = []
         known_hit = collections.OrderedDict()
